@@ -126,8 +126,8 @@ func checkC16(c c16Case) (o vstat.Outcome) {
 			got[int(gi)] = true
 		}
 		for gi := range reach {
-			if reach[gi] && dealt[gi] > 0 && !got[gi] {
-				return vstat.Viol("unlocked-missing-grant", "grant %d is reachable and holds %d shares but is not reported unlocked", gi, dealt[gi])
+			if reach[gi] && !got[gi] {
+				return vstat.Viol("unlocked-missing-grant", "grant %d can be decrypted with an offered key (it holds %d shares) but is not reported unlocked", gi, dealt[gi])
 			}
 		}
 		return nil
